@@ -213,6 +213,30 @@ func (p *Program) FileDescriptor() *descriptor.FileDescriptorProto {
 		fd.Dependency = append(fd.Dependency, durationImport)
 	}
 	fd.Dependency = append(fd.Dependency, p.ExtraDeps...)
+	// source info the way protoc supplies it: leading comments for messages ([4, i]) and fields ([4, i, 2, j])
+	sci := &descriptor.SourceCodeInfo{}
+	for mi, m := range p.Messages {
+		sci.Location = append(sci.Location, &descriptor.SourceCodeInfo_Location{
+			Path: []int32{4, int32(mi)}, Span: []int32{int32(10 * mi), 0, int32(10*mi + 9), 1},
+			LeadingComments: proto.String(" " + m.Name + " is a message of the program.\n It has " + fmt.Sprint(len(m.Fields)) + " fields.\n"),
+		})
+		for fi, f := range m.Fields {
+			c := " " + f.Name + " holds a " + f.Kind + ".\n"
+			switch fi % 4 {
+			case 1:
+				c = " " + f.Name + " is documented\n   over several indented lines\n\n with a blank one.\n"
+			case 2:
+				c = " " + f.Name + " uses CRLF\r\n line ends and \"quotes\" and a \\ backslash.\r\n"
+			case 3:
+				continue // no comment
+			}
+			sci.Location = append(sci.Location, &descriptor.SourceCodeInfo_Location{
+				Path: []int32{4, int32(mi), 2, int32(fi)}, Span: []int32{int32(10*mi + fi), 2, 40},
+				LeadingComments: proto.String(c),
+			})
+		}
+	}
+	fd.SourceCodeInfo = sci
 	return fd
 }
 
